@@ -75,6 +75,7 @@ type VC struct {
 	results  []string
 	dry      bool
 	touched  map[string]bool
+	loopEntry  map[int]*State // state in which loop N was entered (atloop)
 	privAllocs map[*ssa.Alloc]bool // cells of the function whose address never leaves it (private.go)
 	topHit   bool
 	ordinals map[string]int
